@@ -246,3 +246,21 @@ func (r *Report) finish(verifDir, tier string, seed int, start time.Time, explan
 	}
 	return 0
 }
+
+// refile runs a rule written for another property into a scratch report and files the obligations selected by keep under this
+// property's rule name: one structural fact can be a necessary condition of several properties.
+func (r *Report) refile(fromRule, toRule string, run func(sr *Report), keep func(o Obligation) bool) int {
+	sr := newReport(r.Property)
+	run(sr)
+	n := 0
+	for _, o := range sr.Obls {
+		if o.Rule != fromRule || (keep != nil && !keep(o)) {
+			continue
+		}
+		key := strings.TrimPrefix(o.Key, o.Rule+" ")
+		r.add(toRule, key, o.OK, o.Pos, o.Detail)
+		n++
+	}
+	r.Fatal = append(r.Fatal, sr.Fatal...)
+	return n
+}
